@@ -56,7 +56,8 @@ def cases(draw):
     prev = draw(st.one_of(st.none(), data_dict)) if op != "create_data" else None
     return {"entities": [[t, f] for t, f in ents], "e": e, "o": o, "op": op, "prev": prev, "new": draw(data_dict),
             "other": draw(data_dict), "mode": draw(st.sampled_from(["crash", "crash", "crash", "corrupt"])),
-            "next": draw(st.sampled_from(["grow", "shrink"]))}
+            "next": draw(st.sampled_from(["grow", "shrink"])),
+            "config": draw(st.sampled_from([None, None, None] + [c for c in model.paths if c != model.default_config]))}
 
 
 def sidecar(model, path):
@@ -67,7 +68,7 @@ def evaluate(case) -> Outcome:
     from spil import FindInPaths, GetFromPaths, SpilException, WriteToPaths
     model = _m()
     m = model.sid
-    cname = model.default_config
+    cname = case.get("config") or model.default_config
     pm = model.paths[cname]
     root = pm.root()
     ents = [(t, f) for t, f in case["entities"]]
